@@ -891,3 +891,131 @@ def replay(ck: Check, prop: str):
         if p == prop:
             ck.violation(sig, what, rp, found_input=True)
     print('reproduced' if hit else 'NOT reproduced')
+
+
+# ------------------------------------------------- witnesses on the real code
+def _w(*names):
+    return [list(x) for x in names]
+
+
+WITNESSES = {
+    'leak': {
+        'prop': 'C12', 'expect': 'leak:worker._tasks:arrived-after-cancel',
+        'theorem': 'C12_leak_witness',
+        'scenario': {'topo': {'kind': 'detached', 'workers': 1},
+                     'table': ((), (('s', 0), ('a', 0))),
+                     'clients': [[('submit', 1), ('cancel', 0)]]},
+        'schedule': [('w', 'W0'), ('c', 'C0'), ('d', 'C0', 'S'),
+                     ('d', 'S', 'W0'), ('w', 'W0'), ('c', 'C0'),
+                     ('d', 'C0', 'S'), ('d', 'W0', 'S'), ('d', 'W0', 'S'),
+                     ('d', 'S', 'W0'), ('d', 'S', 'W0'), ('w', 'W0'),
+                     ('d', 'W0', 'S'), ('d', 'S', 'C0')]},
+    'orphan': {
+        'prop': 'C12', 'expect': 'orphan:worker._mailboxes:owner-completed',
+        'theorem': 'C12_orphan_witness',
+        'scenario': {'topo': {'kind': 'detached', 'workers': 1},
+                     'table': ((), (('s', 0), ('s', 0))),
+                     'clients': [[('submit', 1)]]},
+        'schedule': [('w', 'W0'), ('c', 'C0'), ('d', 'C0', 'S'),
+                     ('d', 'W0', 'S'), ('d', 'S', 'W0'), ('w', 'W0')]
+        + [('d', 'W0', 'S')] * 4 + [('d', 'S', 'W0')] * 3
+        + [('w', 'W0'), ('w', 'W0'), ('d', 'W0', 'S'), ('d', 'W0', 'S')]},
+    'drift': {
+        'prop': 'C15',
+        'expect': 'num_tasks-not-exact-at-quiescence:after-cancel',
+        'theorem': 'C15_drift_witness',
+        'scenario': {'topo': {'kind': 'detached', 'workers': 1},
+                     'table': ((), (('s', 0), ('c', 0))),
+                     'clients': [[('submit', 1)]]},
+        'schedule': [('w', 'W0'), ('c', 'C0'), ('d', 'C0', 'S'),
+                     ('d', 'W0', 'S'), ('d', 'S', 'W0'), ('w', 'W0')]
+        + [('d', 'W0', 'S')] * 3 + [('d', 'S', 'W0')] * 2
+        + [('w', 'W0'), ('d', 'W0', 'S')]},
+}
+
+
+def replay_witnesses(ck: Check, prop: str):
+    """Replays the runs of the Lean `_witness` theorems on the real code: same
+    transition sequence (checked against the driver's rendering of the Lean
+    definitions), same states (model diff), and the direct oracle must report
+    exactly the finding the theorem describes."""
+    from harness import runtime_model as rm
+    done = {}
+    for name, w in WITNESSES.items():
+        if w['prop'] != prop:
+            continue
+        sim, V, stats, st = run_one(w['scenario'], 7, schedule=w['schedule'],
+                                    with_model=True)
+        rec = sim.recorder
+        mine = rec.lines[rec.nhdr:]
+        theirs = rm.run_driver([f'witness {name}'])[0].split(' ;; ')
+        norm = lambda s: ' '.join(s.split())
+        sigs = {sig for (p, sig, what, d) in V.items if p == prop}
+        d = rm.diff(rec)
+        sim.dispose()
+        ok_sync = [norm(x) for x in mine] == [norm(x) for x in theirs]
+        done[name] = {'theorem': w['theorem'], 'transitions': len(mine),
+                      'same_run_as_lean_definition': ok_sync,
+                      'model_agrees': d['mismatch'] is None,
+                      'finding_reproduced': w['expect'] in sigs,
+                      'quiescent': stats['quiescent']}
+        replay = {'scenario': w['scenario'], 'run_seed': 7,
+                  'schedule': [list(x) for x in w['schedule']]}
+        if not ok_sync or d['mismatch'] is not None:
+            ck.violation(
+                f'witness-out-of-sync:{name}',
+                f'the run of {w["theorem"]} is not the run the real code '
+                f'takes any more (same transitions: {ok_sync}, model agrees: '
+                f'{d["mismatch"] is None})',
+                {'broken': w['theorem'], **replay,
+                 'mismatch': d['mismatch']}, found_input=False)
+        elif w['expect'] not in sigs:
+            ck.violation(
+                f'witness-not-reproduced:{name}',
+                f'{w["theorem"]} describes a defect the real code no longer '
+                'shows on the same run (model follows a different code)',
+                {'broken': w['theorem'], **replay}, found_input=False)
+        for (p, sig, what, dd) in V.items:
+            if p == prop:
+                ck.violation(sig, what, replay, found_input=True)
+    ck.coverage['witness_replays'] = done
+
+
+def extra_c12(ck: Check):
+    replay_witnesses(ck, 'C12')
+
+
+def extra_c15(ck: Check):
+    replay_witnesses(ck, 'C15')
+
+
+def extra_c07(ck: Check):
+    from harness.runtime_fine import double_wake_replay
+    r = double_wake_replay()
+    ck.coverage['fine_race_replay'] = r
+    if not r.get('line_found') or not r.get('fired'):
+        ck.violation(
+            'fine-race:cannot-force', 'the source line of _process_await at '
+            'which the interleaving of C07_fine_double_wake_witness is forced '
+            'was not found / not reached (code changed: re-derive the fine '
+            'model)', {'broken': 'C07_fine_double_wake_witness', 'obs': r},
+            found_input=False)
+    elif r.get('assertion_error') or r.get('ready_after_racy_await', 0) > 1:
+        ck.violation(
+            'fine-race:double-wake:_process_await||_handle_result',
+            'thread interleaving (forced with sys.settrace on the real '
+            'Worker): _handle_result runs right after `box.dest_addr = ...` '
+            'of _process_await -> the task is put on the ready queue '
+            f'{r.get("ready_after_racy_await")} times; the stale wake-up hits '
+            '`assert box.ready` and an AssertionError the task body never '
+            'raised is sent as ERROR',
+            {'replay_cmd': '/venv/bin/python -c "from harness.runtime_fine '
+             'import double_wake_replay as f; print(f())"', 'obs': r},
+            found_input=True)
+    else:
+        ck.violation(
+            'fine-race:witness-not-reproduced',
+            'C07_fine_double_wake_witness describes a race the real Worker no '
+            'longer shows under the forced interleaving (model follows a '
+            'different code)', {'broken': 'C07_fine_double_wake_witness',
+                                'obs': r}, found_input=False)
